@@ -844,9 +844,15 @@ pub fn after_client_frame(sim: &mut Sim, c: usize) {
 
     // ---- C02: EntityReplicated never names a tick newer than the entity's confirmed tick
     for (e, t) in &replicated {
-        if let Some((_, _, _, lt)) = held.values().find(|h| h.0 == e.to_bits()) {
+        if let Some((se, (_, _, _, lt))) = held.iter().find(|(_, h)| h.0 == e.to_bits()) {
             if t > lt {
                 v.push(("C02", "replicated_event_ahead", format!("client {c}: EntityReplicated for {:#x} names tick {t} but the entity's confirmed tick is {lt}", e.to_bits())));
+            }
+            // ... and a message of that tick addressed this entity.
+            let addressed = sess.upd_msgs.iter().take(sess.upd_delivered).any(|m| m.tick == *t && (m.changes.iter().any(|(x, _)| x == se) || m.removals.iter().any(|(x, _)| x == se)))
+                || sess.muts.values().any(|m| m.tick == *t && m.delivered && m.ents.iter().any(|(x, _)| x == se));
+            if !addressed {
+                v.push(("C02", "replicated_event_unaddressed", format!("client {c}: EntityReplicated for {:#x} (server {se:#x}) names tick {t}, but no delivered message of that tick addressed the entity", e.to_bits())));
             }
         }
     }
